@@ -43,15 +43,27 @@ def run(ctx):
                     a = G.shape_args(rng, name)
                     if name in ("cos", "sin") and a["tau"] > 12:
                         a["tau"] = rng.uniform(0.5, 12)
+                if name in G.ERF and rep % 2 == 1:
+                    a["degree"] = G.right_parity_degree(rng, name, 20, 60)
+                    cheb_only = True
+                else:
+                    cheb_only = False
+                if name in ("cos", "sin") and rep % 2 == 1:
+                    a["tau"], a["epsilon"] = rng.choice([(16.0, 0.3), (0.5, 0.3), (12.0, 0.5), (8.0, 0.3), (3.0, 0.5)])
                 extra = {}
                 if name in G.ERF and rng.random() < 0.5:
                     extra["max_scale"] = hexf(rng.choice([0.5, 0.9, 1.0, 0.3]))
-                groups.append({"name": name, "args": G.enc_args(a), "extra": extra, "order": rng.sample(range(8), 8)})
+                groups.append({"name": name, "args": G.enc_args(a), "extra": extra, "order": rng.sample(range(8), 8), "cheb_only": cheb_only})
+    if ctx.replay is None:
+        for name in ("cos", "sin"):
+            for tau, eps in ((16.0, 0.3), (0.5, 0.3), (12.0, 0.5), (8.0, 0.3), (3.0, 0.5), (1.0, 0.1)):
+                groups.append({"name": name, "args": G.enc_args({"tau": tau, "epsilon": eps}), "extra": {}, "order": rng.sample(range(8), 8), "cheb_only": False})
     combos = [(eb, rs, cheb) for eb in (True, False) for rs in (True, False) for cheb in (True, False)]
     cases = []
     for gi, g in enumerate(groups):
         # the 8 calls of a group run in one worker process, in a shuffled order, followed by a repeat of the first
-        seq = [combos[k] for k in g["order"]] + [combos[g["order"][0]]]
+        order = [k for k in g["order"] if combos[k][2] or not g.get("cheb_only")]
+        seq = [combos[k] for k in order] + [combos[order[0]]]
         for (eb, rs, cheb) in seq:
             c = {"fn": "gen", "name": g["name"], "args": g["args"], "ensure_bounded": eb, "return_scale": rs, "chebyshev_basis": cheb,
                  "timeout": 300, "gi": gi}
@@ -86,7 +98,7 @@ def run(ctx):
                 ctx.fail("options", {"group": g}, "%s raised %s (%s) under options %s" % (g["name"], r["exc"], r.get("msg", "")[:80], key))
                 bad = True
                 break
-            if k == 8:
+            if k == len(idx) - 1:
                 rep_first = (key, r["ok"])
             else:
                 R[key] = r["ok"]
@@ -99,8 +111,9 @@ def run(ctx):
             ctx.fail("options", case, "%s: repeating the call with options %s in the same process gives a different result (scale %s vs %s)"
                      % (g["name"], key0, again["scale"], R[key0]["scale"]))
             continue
+        bases = (True,) if g.get("cheb_only") else (True, False)
         for eb in (True, False):
-            for cheb in (True, False):
+            for cheb in bases:
                 a, b = R[(eb, True, cheb)], R[(eb, False, cheb)]
                 if a["coefs"] != b["coefs"]:
                     ctx.fail("options", case, "%s: coefficients depend on return_scale (ensure_bounded=%s, chebyshev_basis=%s)" % (g["name"], eb, cheb))
@@ -111,7 +124,7 @@ def run(ctx):
                     bad = True
         if bad:
             continue
-        for cheb in (True, False):
+        for cheb in bases:
             bnd, unb = R[(True, True, cheb)], R[(False, False, cheb)]
             mx = max(abs(fr(x)) for x in bnd["coefs"]) or Fraction(1)
             lines.append("(scaledclose %s %s %s %s)" % (Q.qlist(bnd["coefs"]), Q.qlist(unb["coefs"]), qs(fr(bnd["scale"])), qs(mx / 10 ** 9)))
@@ -119,6 +132,9 @@ def run(ctx):
         if g["name"] in G.CHEBSUM:
             for eb in (True, False):
                 ch, mo = R[(eb, False, True)], R[(eb, False, False)]
+                if len(mo["coefs"]) > 25 or len(ch["coefs"]) > 25:
+                    ctx.bucket("basis comparison skipped: degree > 24")
+                    continue
                 if len(ch["coefs"]) != len(mo["coefs"]):
                     ctx.fail("options", case, "%s: %d Chebyshev coefficients but %d monomial ones" % (g["name"], len(ch["coefs"]), len(mo["coefs"])))
                     continue
